@@ -267,7 +267,8 @@ bool durability_check(Plan const& p, IWorld& nw, ChkptView const& before, std::s
 
     if (!diff.empty())
     {
-        std::string k = !nc.empty() ? nc : key;
+        // name the distribution name as the cause only if a name is what differs
+        std::string k = (!nc.empty() && diff.find("name") != std::string::npos) ? nc : key;
         rep.fail("C05", "field-differs", k, fmt("%s: %s", where, diff.c_str()));
         return false;
     }
